@@ -63,6 +63,7 @@ def check(ck):
         # whether or not the named type exists
         from .c11 import schema_extension_merges
         schema_extension_merges(ck, repo)
+        bake_pipeline(ck, repo)
     with ck.rule("R3"):
         _clauses(ck, repo)
     with ck.rule("R4"):
@@ -203,6 +204,21 @@ def _clauses(ck, repo):
         ck.ob(f"clause `{clause}`: {qual.split('.')[-1]} reports it under the guard the clause names", hit is not None, f, hit or f.node, construct=f"clause:{qual.split('.')[-1]}:{clause}",
               detail=f"needs an error containing '{fragment}' under {conds}" + (f" in `except {handler}`" if handler else ""))
     ck.count("clause_instances", n, 27)
+    _clause_tables(ck, repo)
+    # the table the input-type clause reads: exactly scalars, enums and input objects are recorded as input types
+    writers = {}
+    for m in sc_methods(repo).values():
+        for c in FuncView(m).calls("append"):
+            if unparse(c.func.value) == "self._input_types":
+                writers[m.name] = (m, c, set(FuncView(m).conditions(c)))
+    p_ = {k: v[0].positional_params[1] for k, v in writers.items()}
+    ok = set(writers) == {"add_type_definition", "add_scalar_definition", "add_enum_definition"} and \
+        {(t, o) for t, o in writers["add_type_definition"][2] if "isinstance" in t} == {(f"isinstance({p_['add_type_definition']}, GraphQLInputObjectType)", "T")} and \
+        not {(t, o) for t, o in writers["add_scalar_definition"][2] if "isinstance" in t} and not {(t, o) for t, o in writers["add_enum_definition"][2] if "isinstance" in t} and \
+        all(unparse(v[1].args[0]) == f"{p_[k]}.name" for k, v in writers.items())
+    any_w = next(iter(writers.values()), None)
+    ck.ob("the input-type table records every scalar, every enum and exactly the input objects among the other types, by name", ok, any_w[0] if any_w else None,
+          any_w[1] if any_w else None, where=None if any_w else SCH, construct="input-types:writers", detail=str({k: sorted(v[2]) for k, v in writers.items()}))
     # glue: helper validators are called by the nullary ones with the right operands
     sc = repo.cls(SCH, "GraphQLSchema")
     for caller, callee in (("_validate_object_follow_interfaces", "_validate_field_follow_interface"), ("_validate_arguments_have_valid_type", "_validate_type_is_an_input_types"),
@@ -230,7 +246,40 @@ def _clauses(ck, repo):
         ok = ok and len(src) == 1 and unparse(src[0].value) == "self.type_definitions.get(extension.name)"
         ck.ob(f"{meth}: every {ext_cls} is checked against a target of kind {tgt_cls}", ok, m, c or m.node, construct=f"glue:ext:{meth}")
         ext = [x for x in mv.calls("extend") if unparse(x.func.value) == "errors" and unparse(x.args[0]) == "ext_errors"]
-        ck.ob(f"{meth}: target errors are kept", len(ext) == 1, m, m.node, construct=f"glue:ext:{meth}:kept")
+        ck.ob(f"{meth}: target errors are kept", len(ext) == 1 and not mv.conditions(ext[0]) and bool(lp) and contains(lp[0], ext[0]), m, m.node, construct=f"glue:ext:{meth}:kept")
+        st_ = mv.stmt_of(c) if c is not None else None
+        ck.ob(f"{meth}: the target verdict is what _validate_extension answered", isinstance(st_, ast.Assign) and unparse(st_.targets[0]) == "ext_errors", m, c or m.node,
+              construct=f"glue:ext:{meth}:verdict")
+        dd = [x for x in mv.calls("_validate_extension_directives")]
+        ok = len(dd) == 1 and [unparse(a) for a in dd[0].args][:2] == ["extension", "extended"] and set(mv.conditions(dd[0])) == {("ext_errors", "F")} and \
+            isinstance(mv.parent(dd[0]), ast.Call) and unparse(mv.parent(dd[0]).func) == "errors.extend"
+        ck.ob(f"{meth}: repeated directives are judged (and kept) exactly when the target is of the right kind", ok, m, dd[0] if dd else m.node, construct=f"glue:ext:{meth}:directives")
+        specific = [x for x in mv.calls("append") if unparse(x.func.value) == "errors"]
+        ck.ob(f"{meth}: the kind-specific clauses are judged only for a target of the right kind (they read it)", all(("ext_errors", "F") in mv.conditions(x) for x in specific), m,
+              specific[0] if specific else m.node, construct=f"glue:ext:{meth}:specific-guarded")
+        r_ = mv.returns()
+        ck.ob(f"{meth}: returns the accumulated errors", len(r_) == 1 and unparse(r_[0].value) == "errors", m, r_[0] if r_ else m.node, construct=f"glue:ext:{meth}:return")
+    ve = _find_func(repo, "_validate_extension")
+    vev = FuncView(ve)
+    e0, e1, e2 = ve.positional_params[:3]
+    rets = vev.returns()
+    kinds = {}
+    for r_ in rets:
+        kinds[("empty" if unparse(r_.value) == "[]" else ("missing" if "non existing" in unparse(r_.value) else "wrong-kind"))] = set(vev.conditions(r_))
+    ck.ob("_validate_extension: missing target / target of another kind / fine - exactly under those conditions",
+          kinds == {"missing": {(e0, "F")}, "wrong-kind": {(e0, "T"), (f"isinstance({e0}, {e2})", "F")}, "empty": {(e0, "T"), (f"isinstance({e0}, {e2})", "T")}}, ve, ve.node,
+          construct="glue:ext:_validate_extension:table", detail=str(kinds))
+    vd = _find_func(repo, "_validate_extension_directives")
+    vdv = FuncView(vd)
+    r_ = vdv.returns()
+    lp_ = [l for l in vdv.loops() if isinstance(l, ast.For)]
+    ap_ = [x for x in vdv.calls("append") if unparse(x.func.value) == "errors"]
+    src_ = [n_ for n_ in walk_no_nested(vd.node) if isinstance(n_, ast.Assign) and unparse(n_.targets[0]) == "extended_dir"]
+    ok = len(r_) == 1 and unparse(r_[0].value) == "errors" and len(lp_) == 1 and unparse(lp_[0].iter) == f"{vd.positional_params[0]}.directives" and len(ap_) == 1 and \
+        set(vdv.conditions(ap_[0])) == {(f"{unparse(lp_[0].target)}.name.value in extended_dir", "T")} and len(src_) == 1 and \
+        unparse(src_[0].value) == f"[x.name.value for x in {vd.positional_params[1]}.directives]"
+    ck.ob("_validate_extension_directives: a directive of the extension is reported iff the extended type already carries one of that name; the list is returned", ok, vd, vd.node,
+          construct="glue:ext:_validate_extension_directives")
     # type equality used by the conformance clauses keeps list and non-null apart
     for rel, cname in (("tartiflette/types/list.py", "GraphQLList"), ("tartiflette/types/non_null.py", "GraphQLNonNull")):
         c = repo.cls(rel, cname)
@@ -288,3 +337,100 @@ def _redefinitions(ck, repo):
     direct = [f.short for f in t.funcs.values() for n in walk_no_nested(f.node) if isinstance(n, ast.Assign) and any(isinstance(x, ast.Subscript) and
               unparse(x.value).endswith(("type_definitions", "_directive_definitions")) for x in n.targets)]
     ck.ob("schema construction never stores into the definition tables directly", not direct, where=t.relpath, construct="redefine:no-bypass", detail=str(direct))
+
+
+def _clause_tables(ck, repo):
+    """Clauses whose guard is a boolean combination: decided as per-candidate decision tables."""
+    import itertools
+    from ..pathtab import Atoms, evaluate, iteration_outcomes
+
+    sc = repo.cls(SCH, "GraphQLSchema")
+
+    def table(f, atoms, preds, want_fn, tag, lab=None):
+        fv = FuncView(f)
+        lps = [l for l in fv.loops() if isinstance(l, ast.For) and not fv.enclosing_loops(l)]
+        if len(lps) != 1:
+            ck.ob(f"{f.name}: one scan loop over the candidates", False, f, f.node, construct=f"ctable:{tag}:loop")
+            return
+        label = lab or (lambda n: "report" if n.kind == "stmt" and isinstance(n.ast, ast.Expr) and isinstance(n.ast.value, ast.Call) and unparse(n.ast.value.func) == "errors.append" else None)
+        for bits in itertools.product([False, True], repeat=len(preds)):
+            val = dict(zip(preds, bits))
+            want = want_fn(val)
+            got = iteration_outcomes(fv.cfg, lps[0], lambda n, env: evaluate(n.ast, env, val, atoms), label)
+            ck.ob(f"{f.name} table {val}", got == {frozenset(want)}, f, lps[0], construct=f"ctable:{tag}:" + "".join(str(int(b)) for b in bits),
+                  detail=f"per candidate {sorted(map(sorted, got))}, want {sorted(want)}" + atoms.note())
+        ck.ob(f"{f.name}: every type definition is a candidate", unparse(lps[0].iter) in ("self.type_definitions.items()", "self.type_definitions.values()") and
+              not any(isinstance(n, (ast.Break, ast.Return)) for n in walk_no_nested(lps[0])), f, lps[0], construct=f"ctable:{tag}:all")
+        r = fv.returns()
+        ck.ob(f"{f.name}: returns the accumulated errors", len(r) == 1 and unparse(r[0].value) == "errors", f, r[0] if r else f.node, construct=f"ctable:{tag}:return")
+
+    f = sc.methods["_validate_all_scalars_have_implementations"]
+    atoms = Atoms({"isinstance(gql_type, GraphQLScalarType)": "scalar", "gql_type.coerce_output is None": "no_out", "gql_type.coerce_input is None": "no_in",
+                   "gql_type.parse_literal is None": "no_lit"})
+    table(f, atoms, ["scalar", "no_out", "no_in", "no_lit"], lambda v: {"report"} if v["scalar"] and (v["no_out"] or v["no_in"] or v["no_lit"]) else set(), "scalars")
+    f = sc.methods["_validate_non_empty_object"]
+    atoms = Atoms({"isinstance(gql_type, GraphQLObjectType)": "object"})
+    atoms.funcs.append(lambda e, t: "has_fields" if isinstance(e, ast.ListComp) and unparse(e.generators[0].iter) == "gql_type.implemented_fields" else None)
+    table(f, atoms, ["object", "has_fields"], lambda v: {"report"} if v["object"] and not v["has_fields"] else set(), "non-empty")
+    fv = FuncView(f)
+    comps = [n for n in ast.walk(f.node) if isinstance(n, ast.ListComp)]
+    ok = len(comps) == 1 and [unparse(i) for i in comps[0].generators[0].ifs] == [f"not {unparse(comps[0].generators[0].target)}.startswith('__')"]
+    ck.ob("_validate_non_empty_object: the fields counted are the declared ones (the injected __ fields do not count)", ok, f, comps[0] if comps else f.node, construct="ctable:non-empty:filter")
+    u = _find_func(repo, "_value_uniqueness")
+    uv = FuncView(u)
+    lps = [l for l in uv.loops() if isinstance(l, ast.For)]
+    atoms = Atoms({"value in seen": "seen", "value in double": "double"})
+    for seen, dbl in itertools.product([False, True], repeat=2):
+        if dbl and not seen:
+            continue
+        val = {"seen": seen, "double": dbl}
+        want = {"double", "seen"} if seen and not dbl else {"seen"}
+        got = iteration_outcomes(uv.cfg, lps[0], lambda n, env: evaluate(n.ast, env, val, atoms),
+                                 lambda n: ("double" if n.kind == "stmt" and unparse(n.ast).startswith("double.append(") else ("seen" if n.kind == "stmt" and unparse(n.ast).startswith("seen.append(") else None))) if lps else set()
+        ck.ob(f"_value_uniqueness table {val}", got == {frozenset(want)}, u, lps[0] if lps else u.node, construct=f"ctable:uniq:{int(seen)}{int(dbl)}", detail=str(sorted(map(sorted, got))))
+    r = uv.returns()
+    ck.ob("_value_uniqueness returns the values seen twice", len(r) == 1 and unparse(r[0].value) == "double" and lps and unparse(lps[0].iter) == u.positional_params[0], u,
+          r[0] if r else u.node, construct="ctable:uniq:return")
+    e = sc.methods["_validate_enum_values_are_unique"]
+    c = FuncView(e).maybe_call("_value_uniqueness")
+    ck.ob("_validate_enum_values_are_unique: uniqueness is judged on the string form of every value of the enum", c is not None and
+          [unparse(a) for a in c.args] == ["[str(x.value) for x in gql_type.values]"], e, c or e.node, construct="ctable:uniq:operand")
+
+
+def bake_pipeline(ck, repo):
+    """GraphQLSchema.bake runs every stage once, in this order, on every path to its normal return (shared with C11 and
+    C13: an extension, a registered resolver or a hook exists only if its stage ran)."""
+    b = repo.func(SCH, "GraphQLSchema.bake")
+    bv = FuncView(b)
+    stages = [("_inject_introspection_fields", []), ("_validate_extensions", []), ("_bake_extensions", []), ("bake_registered_objects", ["self"]),
+              ("_bake_types", [b.positional_params[1]]), ("_validate", [])]
+    calls = []
+    for name, args in stages:
+        cs = bv.calls(name)
+        ok = len(cs) == 1 and [unparse(a) for a in cs[0].args] == args and not bv.conditions(cs[0]) and not bv.enclosing_loops(cs[0]) and \
+            bv.cfg.all_paths_pass(bv.cfg.entry.id, bv.cfg.return_exit.id, [bv.cfg_node(cs[0]).id], skip_exc=True)
+        ck.ob(f"GraphQLSchema.bake runs {name}({', '.join(args)}) once, unconditionally", ok, b, cs[0] if cs else b.node, construct=f"pipeline:{name}")
+        calls.append(cs[0] if len(cs) == 1 else None)
+    for (n1, _), (n2, _), c1, c2 in zip(stages, stages[1:], calls, calls[1:]):
+        ok = c1 is not None and c2 is not None and bv.dominated_by(c2, bv.stmt_of(c1))
+        ck.ob(f"GraphQLSchema.bake: {n1} runs before {n2}", ok, b, c2 or b.node, construct=f"pipeline:order:{n1}<{n2}")
+    bt = calls[4]
+    ck.ob("GraphQLSchema.bake awaits _bake_types", bt is not None and bv.is_awaited(bt), b, bt or b.node, construct="pipeline:await-types")
+    lp = [l for l in bv.loops() if isinstance(l, ast.For) and unparse(l.iter) == "self.type_definitions.items()"]
+    ap = [c for c in bv.calls("append") if unparse(c.func.value) == "self.types"]
+    ok = len(lp) == 1 and len(ap) == 1 and contains(lp[0], ap[0]) and set(bv.conditions(ap[0])) == {("type_name.startswith('__')", "F")} and unparse(ap[0].args[0]) == "type_definition"
+    ck.ob("GraphQLSchema.bake lists every type whose name does not start with __ (and only those) in `types`", ok, b, ap[0] if ap else b.node, construct="pipeline:types-list")
+    st = {unparse(n.targets[0]): unparse(n.value) for n in walk_no_nested(b.node) if isinstance(n, ast.Assign)}
+    want = {"self.queryType": "self._operation_types['query']", "self.mutationType": "self._operation_types['mutation']", "self.subscriptionType": "self._operation_types['subscription']",
+            "self.directives": "list(self._directive_definitions.values())"}
+    ck.ob("GraphQLSchema.bake fills the introspection root types and directive list from the baked tables", all(st.get(k) == v for k, v in want.items()), b, b.node,
+          construct="pipeline:introspection-roots", detail=str({k: st.get(k) for k in want}))
+    ot = [n for n in walk_no_nested(b.node) if isinstance(n, ast.Assign) and unparse(n.targets[0]) == "self._operation_types"]
+    got = {unparse(k): unparse(v) for k, v in zip(ot[0].value.keys, ot[0].value.values)} if len(ot) == 1 and isinstance(ot[0].value, ast.Dict) else {}
+    ck.ob("GraphQLSchema.bake: each operation kind maps to the type definition registered under that kind's root name",
+          got == {f"'{k}'": f"self.type_definitions.get(self.{k}_operation_name)" for k in ("query", "mutation", "subscription")}, b, ot[0] if ot else b.node,
+          construct="pipeline:operation-types", detail=str(got))
+
+
+def sc_methods(repo):
+    return repo.cls(SCH, "GraphQLSchema").methods
